@@ -17,3 +17,18 @@ claim("C08",
            "inputs); Python harness and its naive oracle. Not modelled: float repr, non-ASCII int()/date spellings.",
       technique="Lean 4 proof over executable model + differential correspondence with the Python implementation",
       design_ref="DESIGN.md §5 C08")
+
+claim("C16",
+      text="Proved in Lean 4 for all trees of the model of delphin.derivation: the dictionary round trip at full strength "
+           "(head mark and type on any node including the top); that the explicit stack of _from_string, run on the match "
+           "list of a serialized tree at any indentation (UDF and UDX), rebuilds the tree exactly incl. entity decoding, "
+           "integer parsing and token recovery; that re-serialization reproduces the text; that terminals, preterminals "
+           "and internals partition the nodes. The end-to-end from_string(to_udf(t)) theorem is proved relative to one "
+           "named lexical hypothesis (hscan), which the correspondence run compares with the real _udf_re.finditer match "
+           "list on every generated text.",
+      note="hscan (the character-level regex emulation yields the expected match list on serialized text) is not proved, only "
+           "compared on generated texts. Scores are carried as printed text; '{:g}', parent pointers, is_head() and object "
+           "identity are checked by the direct oracle only. WF/DictOK/Shape restrict to what the formats can express. "
+           "Trusted: Lean kernel + 3 standard axioms, the hand-written model, the Python harness and oracle.",
+      technique="Lean 4 proof over executable model + differential correspondence with the Python implementation",
+      design_ref="DESIGN.md §5 C16")
